@@ -62,11 +62,14 @@ def jsonable(o, depth=0):
 
 # ---------------------------------------------------------------- coverage of the code under test
 class FuncMonitor:
-    """records which functions of /repo/qubovert were executed (sys.monitoring, PY_START)"""
+    """records which functions and lines of /repo/qubovert were executed (sys.monitoring PY_START + LINE events,
+    each location disabled after its first hit, so the overhead is negligible)"""
     TOOL = 4
 
     def __init__(self):
         self.seen = set()
+        self.codes = {}
+        self.lines = set()
         self.on = False
 
     def start(self):
@@ -79,10 +82,18 @@ class FuncMonitor:
 
         def cb(code, off):
             if code.co_filename.startswith(root):
-                self.seen.add('%s:%s' % (os.path.relpath(code.co_filename, REPO), code.co_qualname))
+                rel = os.path.relpath(code.co_filename, REPO)
+                self.seen.add('%s:%s' % (rel, code.co_qualname))
+                self.codes[(rel, code.co_qualname, code.co_firstlineno)] = code
+            return mon.DISABLE
+
+        def cbl(code, line):
+            if code.co_filename.startswith(root):
+                self.lines.add((os.path.relpath(code.co_filename, REPO), line))
             return mon.DISABLE
         mon.register_callback(self.TOOL, mon.events.PY_START, cb)
-        mon.set_events(self.TOOL, mon.events.PY_START)
+        mon.register_callback(self.TOOL, mon.events.LINE, cbl)
+        mon.set_events(self.TOOL, mon.events.PY_START | mon.events.LINE)
         self.on = True
 
     def stop(self):
@@ -90,6 +101,14 @@ class FuncMonitor:
             sys.monitoring.set_events(self.TOOL, 0)
             sys.monitoring.free_tool_id(self.TOOL)
             self.on = False
+
+    def line_report(self):
+        """per function entered: (file, qualname) -> (all source lines with code, lines executed)"""
+        out = {}
+        for (rel, qn, first), code in self.codes.items():
+            allv = sorted({l for _, _, l in code.co_lines() if l is not None and l != first})
+            out['%s:%s' % (rel, qn)] = (allv, sorted(l for l in allv if (rel, l) in self.lines))
+        return out
 
 
 # ---------------------------------------------------------------- running one job
@@ -131,6 +150,25 @@ def as_formula(f):
 
 class Timeout(BaseException):
     pass
+
+
+def cvc5_verdict(smt2_text, timeout_ms=20000):
+    """second opinion on a final query: cvc5 (python wheel) on the SMT-LIB2 text exported by z3 -> 'sat' | 'unsat' | 'unknown'"""
+    import cvc5
+    tm = cvc5.TermManager() if hasattr(cvc5, 'TermManager') else None
+    slv = cvc5.Solver(tm) if tm else cvc5.Solver()
+    slv.setOption('tlimit-per', str(timeout_ms))
+    slv.setLogic('ALL')
+    p = cvc5.InputParser(slv)
+    p.setStringInput(cvc5.InputLanguage.SMT_LIB_2_6, smt2_text, 'q')
+    sm = p.getSymbolManager()
+    out = 'unknown'
+    while True:
+        cmd = p.nextCommand()
+        if cmd.isNull(): break
+        r = str(cmd.invoke(slv, sm) or '').strip()
+        if r in ('sat', 'unsat', 'unknown'): out = r
+    return out
 
 
 def concrete_run(spec, values):
@@ -177,6 +215,7 @@ def run_job(spec):
         wit_all = spec.get('witness_all', 30)
         wit_rate = spec.get('witness_rate', 0.05)
         max_cex = spec.get('max_cex', 6)
+        cross_rate = spec.get('cross_rate', 0)
         seen_sigs = set()
         for out, pc, trace in ctx.explore(lambda c: guarded(run), deadline=t0 + budget, max_paths=spec.get('max_paths', 10 ** 7)):
             res['paths'] += 1
@@ -210,6 +249,16 @@ def run_job(spec):
                     res['discharged'] += 1; r = z3.unsat
                 else:
                     s.push(); s.add(z3.Not(f)); r = s.check()
+                    if cross_rate and str(r) in ('sat', 'unsat') and rng.random() < cross_rate:
+                        try:
+                            v2 = cvc5_verdict(s.to_smt2())
+                        except Exception as e:      # noqa
+                            v2 = 'error: %s' % e
+                        res['cross_checked'] = res.get('cross_checked', 0) + 1
+                        if v2 in ('sat', 'unsat') and v2 != str(r):
+                            res.setdefault('cross_disagree', []).append(dict(label=ob.label, z3=str(r), cvc5=v2))
+                        elif v2 not in ('sat', 'unsat'):
+                            res['cross_inconclusive'] = res.get('cross_inconclusive', 0) + 1
                     if r == z3.unsat:
                         res['discharged'] += 1
                     elif r == z3.sat:
@@ -269,7 +318,8 @@ def run_job(spec):
     finally:
         signal.alarm(0)
         mon.stop()
-    res['functions'] = sorted(mon.seen)
+    res['functions'] = sorted(mon.seen | set(getattr(ctx, 'extra_functions', ())) if 'ctx' in dir() else mon.seen)
+    res['line_report'] = mon.line_report()
     res['labels'] = sorted(res['labels'])[:50]
     res['wall_s'] = round(time.time() - t0, 2)
     res['final_s'] = round(res['final_s'], 3)
